@@ -146,7 +146,17 @@ func c15Selection(rng *rand.Rand, dir string, hostile bool) selection {
 		s.args = append(s.args, "-config", p)
 	}
 	if hostile {
-		switch rng.Intn(7) {
+		switch rng.Intn(9) {
+		case 7:
+			s.args = append(s.args, "-excludeSources", []string{"NoSuchSource", "CABF_BR,NoSuchSource", "rfc5280"}[rng.Intn(3)])
+			s.invalid = "unknown exclude source"
+		case 8: // an invalid exclude list next to a perfectly valid include list (and the other way round)
+			if rng.Intn(2) == 0 {
+				s.args = []string{"-includeSources", "RFC5280", "-excludeSources", "NoSuchSource"}
+			} else {
+				s.args = []string{"-excludeSources", "RFC5280", "-includeSources", "NoSuchSource, CABF_BR"}
+			}
+			s.invalid = "unknown source next to a valid source list"
 		case 0:
 			s.args = append(s.args, "-includeNames", "e_no_such_lint")
 			s.invalid = "unknown include name"
@@ -577,7 +587,7 @@ func init() {
 			if r.Counters["result_sets_compared"] < 300 || r.Counters["summaries_compared"] < 50 {
 				gates = append(gates, "too few CLI outputs compared")
 			}
-			if r.SetSize("undecodable_kinds") < 10 || r.SetSize("invalid_selectors") < 7 {
+			if r.SetSize("undecodable_kinds") < 10 || r.SetSize("invalid_selectors") < 9 {
 				gates = append(gates, "fail-closed part covered too few kinds")
 			}
 			return gates
